@@ -1,20 +1,300 @@
-//! C02 — not implemented yet (stub).
+//! C02 — no input makes the engine fail internally (no panic, abort, EnginePanic or failed
+//! debug assertion): outcome(eval(s)) in {value, JS exception, RuntimeLimitError}.
 
 use crate::driver::{CaseOut, Env, Prop, Stream, Tier};
+use crate::genp::prog::{Opts, generate};
+use crate::run::{Completion, RunCfg, Trace, apply_cfg, classify, install_print, panic_signature, run, take_last_panic};
+use crate::tape::Tape;
+use boa_engine::{Context, Source};
 
 pub struct C02;
+
+fn cfg() -> RunCfg {
+    RunCfg { loop_limit: 20_000, recursion_limit: 512, stack_limit: 10 * 1024, ..RunCfg::default() }
+}
+
+const DICT: &[&str] = &[
+    "var", "let", "const", "function", "function*", "async", "await", "yield", "class", "extends", "super", "new", "new.target", "this", "return", "if", "else", "for", "while", "do",
+    "switch", "case", "default", "break", "continue", "try", "catch", "finally", "throw", "typeof", "void", "delete", "in", "of", "instanceof", "with", "debugger", "static", "get", "set",
+    "import", "export", "null", "undefined", "true", "false", "eval", "arguments", "(", ")", "[", "]", "{", "}", ";", ",", ".", "?.", "...", "=>", "=", "+=", "**=", "&&=", "||=", "??=",
+    "+", "-", "*", "/", "%", "**", "++", "--", "<", ">", "<=", ">=", "==", "===", "!=", "!==", "&&", "||", "??", "?", ":", "!", "~", "&", "|", "^", "<<", ">>", ">>>", "`", "${", "'", "\"",
+    "0", "1", "1n", "0x1f", "1e400", ".5", "08", "'s'", "/re/g", "#p", "x", "y", "a", "b", "\\u0061", "\\u{62}", "\n", "/*", "*/", "//", "<!--", "-->", "@", "#", "\\", "async function*", "label:",
+    "0b1", "0o7", "1_0", "\u{2028}", "\u{feff}", "=>{", "({", "})", "[,", "get x(){}", "static{", "super(", "super.x", "import(", "import.meta", "?.(", "?.[", "`${", "}`",
+];
+
+fn tokenize(src: &str) -> Vec<String> {
+    let mut out = vec![];
+    let cs: Vec<char> = src.chars().collect();
+    let mut i = 0;
+    while i < cs.len() {
+        let c = cs[i];
+        if c.is_alphanumeric() || c == '_' || c == '$' {
+            let s = i;
+            while i < cs.len() && (cs[i].is_alphanumeric() || cs[i] == '_' || cs[i] == '$') {
+                i += 1;
+            }
+            out.push(cs[s..i].iter().collect());
+        } else if c == '\'' || c == '"' {
+            let s = i;
+            i += 1;
+            while i < cs.len() && cs[i] != c && cs[i] != '\n' {
+                if cs[i] == '\\' {
+                    i += 1;
+                }
+                i += 1;
+            }
+            i = (i + 1).min(cs.len());
+            out.push(cs[s..i].iter().collect());
+        } else if c.is_whitespace() {
+            let s = i;
+            while i < cs.len() && cs[i].is_whitespace() {
+                i += 1;
+            }
+            out.push(cs[s..i].iter().collect());
+        } else {
+            // punctuator: greedy up to 3 chars of the same class
+            let s = i;
+            i += 1;
+            while i < cs.len() && i - s < 3 && "=+-*&|<>?.!".contains(cs[i]) && "=+-*&|<>?.!".contains(c) {
+                i += 1;
+            }
+            out.push(cs[s..i].iter().collect());
+        }
+    }
+    out
+}
+
+fn max_nesting(s: &str) -> usize {
+    let mut d = 0usize;
+    let mut m = 0;
+    for c in s.chars() {
+        match c {
+            '(' | '[' | '{' => {
+                d += 1;
+                m = m.max(d);
+            }
+            ')' | ']' | '}' => d = d.saturating_sub(1),
+            _ => {}
+        }
+    }
+    m
+}
+
+fn mutate(src: &str, t: &mut Tape<'_>) -> String {
+    let mut toks = tokenize(src);
+    let n = 1 + t.below(6);
+    for _ in 0..n {
+        if toks.is_empty() {
+            break;
+        }
+        let i = t.below(toks.len().min(65535));
+        match t.below(6) {
+            0 => {
+                toks.remove(i);
+            }
+            1 => {
+                let x = toks[i].clone();
+                toks.insert(i, x);
+            }
+            2 => {
+                let j = t.below(toks.len().min(65535));
+                toks.swap(i, j);
+            }
+            3 => {
+                toks[i] = (*t.pick(DICT)).to_string();
+            }
+            4 => {
+                toks.insert(i, (*t.pick(DICT)).to_string());
+            }
+            _ => {
+                // splice a run from elsewhere
+                let j = t.below(toks.len().min(65535));
+                let len = 1 + t.below(8);
+                let run: Vec<String> = toks[j..(j + len).min(toks.len())].to_vec();
+                for (k, x) in run.into_iter().enumerate() {
+                    toks.insert((i + k).min(toks.len()), x);
+                }
+            }
+        }
+    }
+    toks.concat()
+}
+
+fn body_of(full: &str) -> &str {
+    full.find(crate::genp::prog::PRELUDE).map_or(full, |i| &full[i + crate::genp::prog::PRELUDE.len()..])
+}
+
+fn judge(src: &str, t: &Trace, accepted_min_stmt: bool) -> CaseOut {
+    match &t.completion {
+        Completion::Panic(sig) => CaseOut::fail(src.to_string(), format!("panic {sig}"), t.render()),
+        Completion::EnginePanic(m) => {
+            let short: String = m.chars().filter(|c| !c.is_ascii_digit()).take(100).collect();
+            CaseOut::fail(src.to_string(), format!("EnginePanic {short}"), t.render())
+        }
+        c => {
+            let parsed = !matches!(c, Completion::EarlySyntaxError);
+            let mut l = vec![];
+            if parsed {
+                l.push("parser-accepted");
+            }
+            match c {
+                Completion::Limit(_) => l.push("outcome-limit"),
+                Completion::Throw(_) => l.push("outcome-throw"),
+                Completion::Value(_) => l.push("outcome-value"),
+                _ => l.push("outcome-early-error"),
+            }
+            CaseOut::pass(src.to_string(), parsed && accepted_min_stmt).with_labels(l)
+        }
+    }
+}
+
+/// several sources evaluated in sequence on ONE context
+fn run_reused(srcs: &[String]) -> Trace {
+    crate::run::install_panic_hook();
+    crate::run::PRINTS.with(|p| p.borrow_mut().clear());
+    let c = cfg();
+    let res = std::panic::catch_unwind(std::panic::AssertUnwindSafe(|| {
+        let mut ctx = Context::default();
+        install_print(&mut ctx);
+        apply_cfg(&mut ctx, &c);
+        let mut last = Completion::Value("undefined".into());
+        for s in srcs {
+            let r = ctx.eval(Source::from_bytes(s.as_bytes()));
+            last = classify(&r, s);
+            if last.is_internal_failure() {
+                return last;
+            }
+            if let Err(e) = ctx.run_jobs() {
+                let c = crate::run::throw_class(&e);
+                if c.is_internal_failure() {
+                    return c;
+                }
+            }
+        }
+        last
+    }));
+    let completion = match res {
+        Ok(c) => c,
+        Err(_) => Completion::Panic(panic_signature(&take_last_panic().unwrap_or_default())),
+    };
+    let prints = crate::run::PRINTS.with(|p| std::mem::take(&mut *p.borrow_mut()));
+    Trace { prints, completion }
+}
+
+const SEP: &str = "\n//---NEXT-INPUT-ON-SAME-CONTEXT---\n";
+
+impl C02 {
+    fn source_for(&self, family: usize, t: &mut Tape<'_>, rest: &[u8]) -> Option<String> {
+        Some(match family {
+            0 => {
+                // raw bytes, biased to printable ASCII + dictionary tokens
+                let n = 1 + t.below(120);
+                let mut s = Vec::new();
+                for _ in 0..n {
+                    match t.below(4) {
+                        0 => s.extend_from_slice(t.pick(DICT).as_bytes()),
+                        1 => s.push(t.u8()),
+                        2 => s.push(b' '),
+                        _ => s.push(32 + (t.u8() % 95)),
+                    }
+                }
+                String::from_utf8_lossy(&s).to_string()
+            }
+            1 => {
+                let p = generate(rest, Opts::core());
+                mutate(body_of(&p.src), t)
+            }
+            2 => {
+                let mut o = match t.below(3) {
+                    0 => Opts::core(),
+                    1 => Opts::scope(),
+                    _ => Opts::lit(),
+                };
+                // exclusions concern wrong *values*; for C02 everything is allowed
+                o.excl_f2_rest_after_nested = false;
+                o.excl_f4_param_var_redecl = false;
+                o.excl_f6_operand_then_assign = false;
+                o.excl_f7_update_non_number = false;
+                o.excl_f8_switch_lexical = false;
+                o.excl_f9_pow2_object = false;
+                o.excl_f5_global_logical_assign_in_operand = false;
+                o.excl_f17_catch_in_finally = false;
+                generate(rest, o).src
+            }
+            3 => crate::genp::arb::arb_source(rest)?,
+            _ => crate::genp::wild::generate(rest).src,
+        })
+    }
+}
 
 impl Prop for C02 {
     fn id(&self) -> &'static str {
         "C02"
     }
-    fn streams(&self, _tier: Tier) -> Vec<Stream> {
-        vec![]
+    fn streams(&self, tier: Tier) -> Vec<Stream> {
+        let m = if tier == Tier::Quick { 1 } else { 50 };
+        vec![
+            Stream::new("raw", 20_000 * m, 300).batch(1000),
+            Stream::new("mutant", 20_000 * m, 700).batch(500),
+            Stream::new("program", 4_000 * m, 700).batch(200),
+            Stream::new("arbitrary-ast", 6_000 * m, 600).batch(300),
+            Stream::new("wild", 4_000 * m, 200).batch(200),
+            Stream::new("reuse", 2_000 * m, 900).batch(100),
+        ]
     }
     fn rule(&self) -> String {
-        "stub".into()
+        "six input families, each evaluated under catch_unwind in a worker process (abort/SIGSEGV is attributed to the journaled input): raw = byte soup biased to JS tokens; mutant = token-level delete/duplicate/swap/replace/insert/splice mutants of generated programs (nesting <= 64); program = gen::prog programs with all known-finding exclusions OFF; arbitrary-ast = the maintainers' Arbitrary-derived StatementList printed to source; wild = random built-in method calls chosen by index from the receiver's prototype chain with random receivers/arguments; reuse = 3-8 inputs of mixed families evaluated in sequence on ONE context. Violation = Rust panic (incl. debug assertion / overflow check), EngineError::Panic, worker death by signal. Non-trivial = the parser accepted the input and at least one statement executed (raw: lexes to >= 2 tokens and is accepted); distinct = distinct source".into()
     }
-    fn run_case(&self, _env: &mut Env, _stream: &str, _index: u64, _tape: &[u8]) -> CaseOut {
-        CaseOut::skip(String::new(), "stub")
+    fn run_case(&self, _env: &mut Env, stream: &str, _index: u64, tape: &[u8]) -> CaseOut {
+        let mut t = Tape::new(tape);
+        let split = tape.len().min(24);
+        let rest = &tape[split..];
+        let family = match stream {
+            "raw" => 0,
+            "mutant" => 1,
+            "program" => 2,
+            "arbitrary-ast" => 3,
+            "wild" => 4,
+            _ => 5,
+        };
+        if family == 5 {
+            let n = 3 + t.below(6);
+            let mut srcs = vec![];
+            let chunk = (rest.len() / n).max(8);
+            for k in 0..n {
+                let f = t.below(5);
+                let part = &rest[(k * chunk).min(rest.len())..((k + 1) * chunk).min(rest.len())];
+                let mut t2 = Tape::new(part);
+                if let Some(s) = self.source_for(f, &mut t2, part) {
+                    if max_nesting(&s) <= 64 {
+                        srcs.push(s);
+                    }
+                }
+            }
+            let rendered = srcs.join(SEP);
+            let tr = run_reused(&srcs);
+            return judge(&rendered, &tr, srcs.len() >= 3);
+        }
+        let Some(src) = self.source_for(family, &mut t, rest) else {
+            return CaseOut::skip(String::new(), "arbitrary-ast-not-generated");
+        };
+        if max_nesting(&src) > 64 {
+            return CaseOut::skip(src, "nesting>64");
+        }
+        let tr = run(&src, &cfg());
+        let min = if family == 0 { tokenize(&src).iter().filter(|x| !x.trim().is_empty()).count() >= 2 } else { true };
+        judge(&src, &tr, min)
+    }
+    fn run_rendered(&self, _env: &mut Env, stream: &str, rendered: &str) -> Option<CaseOut> {
+        if stream == "reuse" || rendered.contains(SEP) {
+            let srcs: Vec<String> = rendered.split(SEP).map(str::to_string).collect();
+            let tr = run_reused(&srcs);
+            return Some(judge(rendered, &tr, true));
+        }
+        let tr = run(rendered, &cfg());
+        Some(judge(rendered, &tr, true))
+    }
+    fn rendered_prefix_lines(&self, _rendered: &str) -> usize {
+        0
     }
 }
